@@ -12,6 +12,7 @@ RULE = ("histories: every sequence of <=D public mutations/queries on one Measur
         "single terms with each coefficient (also as bare PauliTerm), all-integer coefficients, small (1e-5) and large (1e6) coefficients; Bessel on/off. non-trivial = at least two distinct bitstrings among the shots and an operator with a "
         "non-constant term; distinct = (shots list, operator block)")
 RULE += ' Also: marked qubits given as tuple / set / frozenset / dict keys / PauliTerm.qubits / one-shot iterators and generators; bitstrings of 33..130 bits.'
+RULE += ' Round 7: zero-coefficient terms in parity tallies; shots whose bits are numpy scalars (uint8 / int8 / bool / int64 / uint16).'
 RULE += ' Round 6: shots of 5-7 bits with operators over every subset (unevenly spaced qubit triples / quadruples).'
 RULE += ' Round 6: ONE operator object through every history of <= 3 evaluations (values, parity tallies, frequencies through term.qubits, is_ising, simplify, str).'
 RULE += ' Round 5: marked qubits as one-shot iterators / generators / map objects.'
@@ -185,6 +186,21 @@ def counts_case(case):
             C = np.asarray(p.correlations[0])
             if vals.tolist() != [[ev, N - ev]] or C.shape != (1, 1, 2) or [int(C[0, 0, 0]), int(C[0, 0, 1])] != [N, 0]:
                 return {"ok": False, "msg": "parity tallies for the bare term %s" % op, "expected": [[[ev, N - ev]], [[[N, 0]]]], "observed": [vals.tolist(), C.tolist()], "sig": "parities:bare-term"}
+    # the same shots with their bits held as numpy scalars (rows of a uint8 / int8 / bool / int64 array, as simulators and file readers hand them over): same tallies, same statistics
+    if w >= 2:
+        pool_ = [qs for qs in S if qs][:6]
+        for dt in (np.uint8, np.int8, np.bool_, np.int64, np.uint16):
+            typed = [tuple(np.array(s_, dtype=dt)) for s_ in shots]
+            for a, b in itertools.product(pool_, repeat=2):
+                op = PauliSum([PauliTerm({q: "Z" for q in a}, 2.0), PauliTerm({q: "Z" for q in b}, -0.5)])
+                pt, pi_ = get_parities_from_measurements(list(typed), op), get_parities_from_measurements(list(shots), op)
+                k += 1
+                if np.asarray(pt.values).tolist() != np.asarray(pi_.values).tolist() or np.asarray(pt.correlations[0]).tolist() != np.asarray(pi_.correlations[0]).tolist():
+                    return {"ok": False, "msg": "parity tallies of shots whose bits are %s scalars differ from those of the same shots as plain ints (terms on %s, %s)" % (np.dtype(dt).name, a, b),
+                            "expected": str([np.asarray(pi_.values).tolist(), np.asarray(pi_.correlations[0]).tolist()]), "observed": str([np.asarray(pt.values).tolist(), np.asarray(pt.correlations[0]).tolist()]), "sig": "parities:entry-dtype"}
+                et, ei = Measurements(list(typed)).get_expectation_values(op), m.get_expectation_values(op)
+                if not np.allclose(np.asarray(et.values, dtype=complex), np.asarray(ei.values, dtype=complex), atol=1e-12, rtol=0) or not np.allclose(np.asarray(et.correlations[0], dtype=complex), np.asarray(ei.correlations[0], dtype=complex), atol=1e-12, rtol=0):
+                    return {"ok": False, "msg": "expectation values of shots whose bits are %s scalars differ from those of the same shots as plain ints" % np.dtype(dt).name, "sig": "statistics:entry-dtype"}
     if [tuple(b) for b in m.bitstrings] != shots:
         return {"ok": False, "msg": "a query modified the measurements", "sig": "counts:mutated"}
     return {"ok": True, "nt": len(set(shots)) >= 2, "ops": k, "out": "N%d" % N}
